@@ -76,16 +76,20 @@ Clauses(r) ==
     [] PROP = "CONF" -> << <<"CONF_drift", CONF_drift(r)>> >>
     \* design level: the same clauses on the model's own result for the text of the record
     [] PROP = "MSAME" -> << <<"M_same_toks", M_same_toks(r)>>, <<"M_same_errs", M_same_errs(r)>>, <<"M_fault", M_fault(r)>> >>
+    [] PROP = "M09" -> LET m == ModelRec(r) IN
+         << <<"M09_bounds", C09_bounds(m)>>, <<"M09_last_token", C09_last_token(m)>>,
+            <<"M09_order", C09_order(m)>>, <<"M09_err_has_tok", C09_err_has_tok(m)>>,
+            <<"M09_tok_has_err", C09_tok_has_err(m)>>, <<"M09_multiplicity", C09_multiplicity(m)>> >>
     [] PROP = "M10" -> LET m == ModelRec(r) IN
          << <<"M10_strexpr", C10_strexpr(m)>>, <<"M10_strexpr_open", C10_strexpr_open(m)>>,
             <<"M10_datalines", C10_datalines(m)>>, <<"M10_label", C10_label(m)>>,
             <<"M10_call_paren", C10_call_paren(m)>> >>
     [] PROP = "M11" -> LET m == ModelRec(r) IN
          << <<"M11_tokens", C11_tokens(m)>>, <<"M11_errors", C11_errors(m)>> >>
-    [] PROP = "M12" -> LET m == [ModelRec(r) EXCEPT !.id = r.id] IN
+    [] PROP = "M12" -> LET m == ModelRec(r) IN
          << <<"M12_no_errors", C12_no_errors(m)>>, <<"M12_config", C12_config(m)>> >>
-    [] PROP = "M13" -> LET m == ModelRec(r) @@ [exps |-> r.exps, fault |-> r.fault] IN << <<"M13_expect", C13_expect(m)>> >>
-    [] PROP = "M14" -> LET m == ModelRec(r) @@ [exps |-> r.exps, fault |-> r.fault] IN << <<"M14_diag", C14_diag(m)>> >>
+    [] PROP = "M13" -> LET m == ModelRec(r) IN << <<"M13_expect", C13_expect(m)>> >>
+    [] PROP = "M14" -> LET m == ModelRec(r) IN << <<"M14_diag", C14_diag(m)>> >>
     [] OTHER -> <<>>
 
 \* relational properties: the record is a tuple of results
